@@ -102,7 +102,144 @@ def _destination(scheme, value):
     return host.lower(), int(m["port"]) if m["port"] else RFC.get(_s(scheme))
 
 
-class _Interp(SeqPatterns, Interp):
+_SCOPES = (ast.FunctionDef, ast.AsyncFunctionDef, ast.ClassDef, ast.Lambda)
+
+
+def _own(st):
+    """Nodes of a module-level statement that run when the module is imported (bodies of nested defs / classes / lambdas excluded)."""
+    stack = [st]
+    while stack:
+        n = stack.pop()
+        yield n
+        for ch in ast.iter_child_nodes(n):
+            if not isinstance(ch, _SCOPES):
+                stack.append(ch)
+
+
+def _root(e):
+    """Name at the bottom of an attribute / subscript / call-receiver chain (``T.setdefault(k, []).append`` -> ``T``)."""
+    while True:
+        if isinstance(e, (ast.Attribute, ast.Subscript, ast.Starred)):
+            e = e.value
+        elif isinstance(e, ast.Call):
+            e = e.func
+        else:
+            return e.id if isinstance(e, ast.Name) else None
+
+
+def _touched(st):
+    """Module-level names a top-level statement binds, rebinds, deletes or may mutate in place: plain / tuple / for / with / walrus
+    targets, ``N[k] = v``, ``N.a = v``, ``del N[k]``, ``N += ..``, and - in expression statements, also nested in loops and branches -
+    method calls on N (``N.update(..)``, ``N.setdefault(k, []).append(v)``) and calls that receive N as an argument (``_fill(N)``)."""
+    out = set()
+    for n in _own(st):
+        if isinstance(n, ast.Name) and isinstance(n.ctx, (ast.Store, ast.Del)):
+            out.add(n.id)
+        elif isinstance(n, (ast.Attribute, ast.Subscript)) and isinstance(n.ctx, (ast.Store, ast.Del)):
+            r = _root(n)
+            if r:
+                out.add(r)
+        elif isinstance(n, ast.Expr) and isinstance(n.value, (ast.Call, ast.Await)):
+            for c in ast.walk(n.value):
+                if isinstance(c, ast.Call):
+                    if isinstance(c.func, ast.Attribute):
+                        r = _root(c.func)
+                        if r:
+                            out.add(r)
+                    for a in list(c.args) + [k.value for k in c.keywords]:
+                        if isinstance(a, ast.Name):
+                            out.add(a.id)
+    return out
+
+
+class ModuleBuild:
+    """pyint mix-in: a module-level name is what the module's top-level statements leave in it, not the value of its last
+    assignment.  ``T = {}`` followed by a ``for`` loop that fills it, ``T.update(..)``, ``T[k] = v``, ``T += [..]``, a table built
+    under ``if`` / ``try`` ... are evaluated by interpreting the backward slice of the module body for the name: in source order, every
+    top-level statement that binds or may mutate the name, plus (transitively) the statements that build the other module-level names
+    those statements read whenever these are not plain single assignments themselves.  Names bound exactly once by a plain
+    ``NAME = expr`` / ``NAME: T = expr`` keep the interpreter's lazy evaluation."""
+
+    def _touch_index(self, mod):
+        per = mod.__dict__.get("_c33_touch_index")  # (a parsed module never changes: computed once per module object)
+        if per is None:
+            per = {}
+            for i, st in enumerate(mod.tree.body):
+                if isinstance(st, (ast.FunctionDef, ast.AsyncFunctionDef, ast.ClassDef, ast.Import, ast.ImportFrom)):
+                    continue
+                for n in _touched(st):
+                    per.setdefault(n, []).append(i)
+            mod.__dict__["_c33_touch_index"] = per
+        return per
+
+    @staticmethod
+    def _plain(st, name):
+        if isinstance(st, ast.Assign):
+            return len(st.targets) == 1 and isinstance(st.targets[0], ast.Name) and st.targets[0].id == name
+        return isinstance(st, ast.AnnAssign) and isinstance(st.target, ast.Name) and st.target.id == name and st.value is not None
+
+    def _slice_of(self, mod, name):
+        """Indices of the top-level statements to interpret for ``name`` (None: a plain single assignment - nothing to do)."""
+        per = self._touch_index(mod)
+        body = mod.tree.body
+        mine = per.get(name, [])
+        if len(mine) == 1 and self._plain(body[mine[0]], name):
+            return None
+        if not mine:
+            return None
+        last = max(mine)
+        chosen, todo, seen = set(), [name], {name}
+        while todo:
+            n = todo.pop()
+            for i in per.get(n, []):
+                if i > last or i in chosen:
+                    continue
+                chosen.add(i)
+                for x in _own(body[i]):
+                    if isinstance(x, ast.Name) and isinstance(x.ctx, ast.Load) and x.id not in seen and (mod.rel, x.id) not in self.overrides:
+                        where = per.get(x.id, [])
+                        if where and not (len(where) == 1 and self._plain(body[where[0]], x.id)):
+                            seen.add(x.id)
+                            todo.append(x.id)
+        return sorted(chosen)
+
+    def modconst(self, mod, name, depth):
+        key = (mod.rel, name)
+        if key in self._modconst:
+            return self._modconst[key]
+        sl = self._slice_of(mod, name)
+        if sl is None:
+            return super().modconst(mod, name, depth)
+        building = getattr(self, "_building", None)
+        if building is None:
+            building = self._building = set()
+        if key in building:
+            raise AnalysisError(f"pyint: module-level name {name} of {mod.rel} is read while the statements that build it are interpreted (shape not modelled)")
+        building.add(key)
+        try:
+            env: dict = {}
+            for i in sl:
+                self.stmt(mod.tree.body[i], env, mod, depth)
+        finally:
+            building.discard(key)
+        if name not in env:
+            raise AnalysisError(f"pyint: module-level name {name} of {mod.rel} is unbound after the statements that build it")
+        self._modconst[key] = env[name]
+        return env[name]
+
+    def name(self, ident, env, mod, depth, node):
+        # names bound only by compound module-level statements (no plain assignment at all: `for K in ..: T[K] = ..` leaves K; `try: X = a
+        # except: X = b`) are module constants too
+        if ident not in env and "$closure" not in env and (mod.rel, ident) not in self.overrides and mod.get(ident) is None and ident not in mod.imports \
+                and not mod.assigns(ident) and ident in self._touch_index(mod) and any(
+                    isinstance(n, ast.Name) and n.id == ident and isinstance(n.ctx, ast.Store) for i in self._touch_index(mod)[ident] for n in _own(mod.tree.body[i])):
+            if not any(isinstance(t, (ast.Tuple, ast.List)) and any(isinstance(e, ast.Name) and e.id == ident for e in t.elts)
+                       for st in mod.tree.body if isinstance(st, ast.Assign) for t in st.targets):  # (flat tuple assignment: the interpreter's own rule)
+                return self.modconst(mod, ident, depth)
+        return super().name(ident, env, mod, depth, node)
+
+
+class _Interp(ModuleBuild, SeqPatterns, Interp):
     pass
 
 
